@@ -21,7 +21,13 @@ from . import prelude
 MAX_UNROLL = 64
 
 
+MUTATORS = {'add', 'discard', 'remove', 'clear', 'pop', 'popleft', 'append', 'insert', 'extend',
+            'rotate', 'update', 'setdefault', 'appendleft', 'sort', 'reverse'}
+
+
 def stored_names(body):
+    """Locals a loop body may change: assigned names, and names of local
+    containers mutated in place (x.add(..), x[k] = .., del x[k], x += ..)."""
     s = set()
     for st in body:
         for n in ast.walk(st):
@@ -29,6 +35,12 @@ def stored_names(body):
                 s.add(n.id)
             elif isinstance(n, ast.ExceptHandler) and n.name:
                 s.add(n.name)
+            elif isinstance(n, ast.Call) and isinstance(n.func, ast.Attribute) \
+                    and n.func.attr in MUTATORS and isinstance(n.func.value, ast.Name):
+                s.add(n.func.value.id)
+            elif isinstance(n, ast.Subscript) and isinstance(n.ctx, (ast.Store, ast.Del)) \
+                    and isinstance(n.value, ast.Name):
+                s.add(n.value.id)
     return s
 
 
@@ -160,6 +172,10 @@ def _invariant_loop(X, st, fr, ls, forinfo):
         # entry values of the parameters: `lo0` is `lo` as passed by the caller
         for pn, pv in getattr(X, 'entry_env', {}).items():
             env.setdefault(pn + '0', pv)
+            env.setdefault(pn, pv)      # ghost parameters are not frame locals
+        for gn, gv in X.named_ghosts.items():
+            if isinstance(gn, str) and gn not in env and isinstance(gv, Val):
+                env[gn] = gv
         if is_for:
             env[ls.index] = ZV(idx)
             env[ls.seq] = seq
